@@ -499,6 +499,17 @@ def std_post_call_facts(tb, t, bb):
             x = x[2][0] if x[0] == "call" else x[1]
         if x[0] == "call" and cn(x[1]) == "core::slice::get" and "::get::<usize>" in str(x[1]) and len(x[2]) == 2:
             out.append(("cmp", "Lt", x[2][1], ("len", x[2][0])))
+        if x[0] == "call" and cn(x[1]) == "core::slice::get" and "::get::<core::ops::range::Range" in str(x[1]) and len(x[2]) == 2 and \
+                x[2][1][0] == "aggr" and x[2][1][1][0] == "adt":
+            # x.get(lo..) / x.get(lo..hi) / x.get(..hi) is Some  =>  the range lies inside x (std contract of slice::get with a range)
+            rk_, ops_ = x[2][1][1][1].rsplit("::", 1)[1], x[2][1][2]
+            if rk_ == "RangeFrom" and len(ops_) == 1:
+                out.append(("cmp", "Le", ops_[0], ("len", x[2][0])))
+            elif rk_ == "RangeTo" and len(ops_) == 1:
+                out.append(("cmp", "Le", ops_[0], ("len", x[2][0])))
+            elif rk_ == "Range" and len(ops_) == 2:
+                out.append(("cmp", "Le", ops_[0], ops_[1]))
+                out.append(("cmp", "Le", ops_[1], ("len", x[2][0])))
         if a[0] == "checked" and a[1] == "Sub":
             out.append(("cmp", "Ge", a[2][0], a[2][1]))
     if path in ("core::result::Result::<T, E>::unwrap", "core::result::Result::<T, E>::expect"):
@@ -658,6 +669,9 @@ def lin(t):
             return lin(x[3]).add(lin(x[2]), -1)
         if x[0] == "rawslice" and len(x) > 2:
             return lin(x[2])          # slice::from_raw_parts(p, n).len() == n
+        if x[0] == "unwrap" and isinstance(x[1], tuple) and x[1] and x[1][0] == "call" and cn(x[1][1]) == "core::slice::get":
+            # `s.get(range).unwrap()` / `.expect(..)`: the same payload, the None answer diverging
+            x = ("fld", ("dc", x[1], 1), 0)
         if x[0] == "fld" and x[2] == 0 and x[1][0] == "dc" and x[1][2] == 1 and x[1][1][0] == "call" and cn(x[1][1][1]) == "core::slice::get" and \
                 len(x[1][1][2]) == 2 and x[1][1][2][1][0] == "aggr" and x[1][1][2][1][1][0] == "adt":
             # the Some payload of s.get(range): std contract - the sub-slice of exactly that range
